@@ -95,7 +95,11 @@ func (e *concEnv) do(op string, g int) string {
 	case "getid":
 		i, err := e.tok.GetBlockID(biscuit.Fact{Predicate: biscuit.Predicate{Name: "fresh_lookup_symbol", IDs: []biscuit.Term{biscuit.String("another_fresh")}}})
 		j, err2 := e.tok.GetBlockID(biscuit.Fact{Predicate: biscuit.Predicate{Name: "blk0_0", IDs: []biscuit.Term{biscuit.Integer(0)}}})
-		return fmt.Sprint(i, err, j, err2)
+		// every position a new symbol can occur in: the predicate name, a top-level term, inside a set (with known name and terms)
+		k, err3 := e.tok.GetBlockID(biscuit.Fact{Predicate: biscuit.Predicate{Name: "right", IDs: []biscuit.Term{biscuit.String("file1"), biscuit.String(fmt.Sprintf("fresh_term_%d", g))}}})
+		l, err4 := e.tok.GetBlockID(biscuit.Fact{Predicate: biscuit.Predicate{Name: "right", IDs: []biscuit.Term{biscuit.String("file1"),
+			biscuit.Set{biscuit.String(fmt.Sprintf("fresh_in_set_%d", g)), biscuit.String("read")}}}})
+		return fmt.Sprint(i, err, j, err2, k, err3, l, err4)
 	case "build":
 		bb := e.tok.CreateBlock()
 		bb.AddFact(biscuit.Fact{Predicate: biscuit.Predicate{Name: "built_by", IDs: []biscuit.Term{biscuit.String("worker")}}})
